@@ -98,11 +98,69 @@
     of such a path, the side condition is gone, and the former counterexample
     is the regression example [C17_fixed_symlinked_backup_parent] below.
 
-    Not proved: ForceBackup of a path that is or was a directory (the Walk
-    branch of tryRemoveBackup); names that still have to be resolved through
-    symlinks ([realPath] beyond the identity on resolved names, C16); runs
-    with crash points or injected faults ([Inv] includes [quiet]); type
-    changes at tracked paths (D13: [kind_stable] in [good_run]).
+    The excluded case "p WAS a directory when the transaction began" (p is
+    tracked as an existing directory and is absent now, or a file or symlink
+    took its place: what [orig_not_dir_cond] excludes and the oracle of the
+    differential check skips) is characterised in the last part of this file
+    (Proofs/BackupForceDir.v: the Walk branch of tryRemoveBackup):
+    - [C17_former_directory_remove_backup]: over the laws of the backup
+      filesystem, tryRemoveBackup(p) for a path recorded as existing whose
+      copy is a directory never halts; whatever it returns it has removed
+      copies at or below p only, each together with its record, and changed
+      nothing else; when it returns nil it has removed ALL of them - so the
+      record of p and of every tracked original below p is gone, while records
+      "did not exist" below p (they have no copy, the Walk never meets them)
+      SURVIVE, and the base is untouched.
+    - [C17_former_directory_rebaselines]: ForceBackup(p) then either fails
+      with the error of a listing or of the Walk's budget (only copies at or
+      below p removed, with their records), or ends - nil or not - in a state
+      that satisfies the invariant [Inv] outright for the baseline
+      [prune B0 p (Vb w !! p)]: [B0] WITHOUT the former directory and
+      everything that lay below it, with the entry found at p now in its
+      place.  The surviving "did not exist" records below p are consistent
+      with that baseline (nothing is there in it).  The precondition is
+      [InvD .. p w]: [Inv] except that the entry at p may have changed its
+      type ([Inv] itself implies it: [Inv_InvD]), so the theorem also covers
+      the state "directory removed, file created in its place", which [Inv]
+      excludes (recorded finding D13): ForceBackup(p) REPAIRS that state.
+    - [C17_former_directory_rollback]: after such a ForceBackup(p) returned
+      nil, covered operations and Rollback: Rollback returns nil, p is as at
+      the moment of the call, every path OUTSIDE the former subtree is as in
+      [B0] - and what lay below the former directory is NOT restored (it is
+      absent).  This is the precise sense in which "every other path is
+      rolled back as usual" fails for the former content of p: by the letter
+      of the property (p is a non-directory at the moment of the call) a
+      violation; it cannot be otherwise (the former content cannot be put
+      back below an absent path or a file), which is why the oracle of the
+      differential check skips the case.  Recorded as a finding about the
+      interface, not repaired: ForceBackup of a removed directory silently
+      discards the backup of its whole former content.
+      [C17_former_directory_whole_transaction]: the same from an [initial]
+      state.
+    - The theorems need two laws that [api_laws]/[api_laws2] do not have, as
+      hypotheses on the backup filesystem (not axioms):
+      [removeall_emptydir_law] (RemoveAll of a directory without children in
+      the view removes it, like Remove: [law_removeall_leaf] covers
+      non-directories only; when its turn comes in the deepest-first loop
+      every collected directory is empty) and [readdir_exact_law]
+      ([law2_readdir] with "exactly the entries directly in the directory,
+      each once" in the place of "entries below the directory": without
+      completeness a copy could be missed and its record survive without a
+      copy).  Both are PROVED for the concrete model in all three layerings
+      ([C17_extra_laws_concrete], [C17_extra_laws_documented],
+      [C17_extra_laws_new]), so [C17_former_directory_concrete],
+      [C17_former_directory_documented], [C17_former_directory_new] are closed.
+      Proofs/BackupForceDir.v ends with a non-trivial instance
+      ([c17_dir_concrete_instance], [c17_dir_concrete_by_computation]).
+    - [C17_former_directory_absent], [C17_former_directory_now_file],
+      [C17_former_directory_none_record]: runs of the model.
+
+    Not proved: ForceBackup of a path that IS a directory at the moment of the
+    call (not what the property is about); names that still have to be
+    resolved through symlinks ([realPath] beyond the identity on resolved
+    names, C16); runs with crash points or injected faults ([Inv] includes
+    [quiet]); type changes at tracked paths other than the one handed to
+    ForceBackup (D13: [kind_stable] in [good_run]).
 
     The law-level statements are parameterised by [hid]/[anc] (what the base
     hides: paths at or below a hidden location, its proper ancestors; [nohid]
@@ -351,3 +409,246 @@ Theorem C17_new :
                 sonode_eqv (V0H q w3 !! p) (B0 !! p)).
 Proof. exact c17_new. Qed.
 Print Assumptions C17_new.
+
+(* ------------------------------------------------------------------ *)
+(** * The excluded case: p was a directory when the transaction began
+    (Proofs/BackupForceDir.v) *)
+From BFS Require Import Proofs.BackupForceDir.
+
+(** the Walk branch of tryRemoveBackup, over the laws of one filesystem
+    ([removed_with_records V V' w w' D]: the entries [D] are gone from the
+    view [V] together with their records, everything else - the rest of
+    [V], the other view [V'], the other records - is as it was) *)
+Theorem C17_former_directory_remove_backup :
+  forall (a : fsapi) (V V' : world -> store) (tn : str -> str) (accp : str -> str -> Prop)
+         (rh wh : fhandle -> str -> nat -> Prop),
+  api_laws a V V' tn accp rh wh nohid nohid ->
+  (forall w i, V' (with_infos w i) = V' w) ->
+  removeall_emptydir_law a V V' -> readdir_exact_law a V V' ->
+  forall (w : world) (p : str) (fi0 : finfo) (mk : meta),
+  quiet w -> swf (V w) -> p <> s_root ->
+  w_infos w !! p = Some (Some fi0) -> V w !! p = Some (Dir mk) ->
+  exists r w' D, try_remove_backup a p w = (r, w') /\ r <> MHalt /\
+    removed_with_records V V' w w' D /\
+    (* only copies at or below p ... *)
+    (forall x, In x D -> under p x /\ V w !! x <> None) /\
+    (* ... and on nil all of them *)
+    (r = MOk tt -> forall x, under p x -> V w !! x <> None -> In x D).
+Proof. exact try_remove_backup_walk_spec. Qed.
+Print Assumptions C17_former_directory_remove_backup.
+
+(** ForceBackup(p), p tracked as an existing directory and now absent, a
+    file or a symlink: the invariant for the baseline without the former
+    subtree ([force_backup_dir_concl], Proofs/BackupForceDir.v) *)
+Theorem C17_former_directory_rebaselines :
+  forall base backup Vb Vk tnb tnk accb acck rhb rhk whb whk hid anc B0,
+  force_backup_dir_stmt base backup Vb Vk tnb tnk accb acck rhb rhk whb whk hid anc B0.
+Proof. exact force_backup_dir_spec. Qed.
+Print Assumptions C17_former_directory_rebaselines.
+
+(** Rollback after such a ForceBackup(p) returned nil *)
+Theorem C17_former_directory_rollback :
+  forall (base backup : fsapi) (Vb Vk : world -> store) (tnb tnk : str -> str)
+         (accb acck : str -> str -> Prop) (rhb rhk whb whk : fhandle -> str -> nat -> Prop)
+         (hid anc : str -> Prop) (B0 : store),
+  base_laws base Vb Vk tnb accb rhb whb hid anc -> base_laws2 base Vb Vk tnb accb rhb whb ->
+  backup_laws backup Vb Vk tnk acck rhk whk ->
+  removeall_emptydir_law backup Vk Vb -> readdir_exact_law backup Vk Vb ->
+  links_ok tnb tnk accb acck B0 -> all_small B0 -> swf B0 -> loc_ok hid anc B0 ->
+  forall (w : world) (p : str) (fi0 : finfo),
+  InvD Vb Vk B0 p w -> snolinkpar (Vb w) p -> p <> s_root ->
+  (* p is tracked as an existing directory ... *)
+  w_infos w !! p = Some (Some fi0) -> fi_kind fi0 = KDir ->
+  (* ... and is not a directory now *)
+  entry_ok tnb tnk accb acck p (Vb w !! p) ->
+  forall (w1 : world) (ops : list op) (w2 : world),
+    b_force_backup base backup p w = (MOk tt, w1) -> good_run base backup Vb w1 ops w2 ->
+    exists w3, b_rollback base backup w2 = (MOk tt, w3) /\
+               (* p: as at the moment of the ForceBackup call *)
+               sonode_eqv (Vb w3 !! p) (Vb w !! p) /\
+               (* the former content of p: NOT back *)
+               (forall q, under p q -> q <> p -> Vb w3 !! q = None) /\
+               (* every path outside the former subtree: as when the transaction began *)
+               (forall q, ~ under p q -> q <> s_root -> sonode_eqv (Vb w3 !! q) (B0 !! q)) /\
+               (forall q, q <> s_root -> Vk w3 !! q = None) /\ w_infos w3 = ∅.
+Proof. exact c17_dir_spec. Qed.
+Print Assumptions C17_former_directory_rollback.
+
+(** a whole transaction: initial state, covered operations (the directory p
+    is backed up and removed), ForceBackup(p) -> nil, covered operations,
+    Rollback *)
+Theorem C17_former_directory_whole_transaction :
+  forall base backup Vb Vk tnb tnk accb acck rhb rhk whb whk hid anc B0,
+  c17_dir_initial_stmt base backup Vb Vk tnb tnk accb acck rhb rhk whb whk hid anc B0.
+Proof. exact c17_dir_initial_spec. Qed.
+Print Assumptions C17_former_directory_whole_transaction.
+
+(** the two extra laws hold for the backup filesystem of the three layerings *)
+Theorem C17_extra_laws_concrete :
+  forall pa pb, prefix_ok pa -> prefix_ok pb -> disjoint_prefixes pa pb ->
+  removeall_emptydir_law (cfg_backup (gcfg pa pb)) (Vp pb) (Vp pa) /\
+  readdir_exact_law (cfg_backup (gcfg pa pb)) (Vp pb) (Vp pa).
+Proof. exact extra_laws_concrete. Qed.
+Print Assumptions C17_extra_laws_concrete.
+
+Theorem C17_extra_laws_documented :
+  forall pa h, prefix_ok pa -> hidden_ok h ->
+  removeall_emptydir_law (cfg_backup (dcfg pa h)) (Vp (pk_h pa h)) (VpH pa h) /\
+  readdir_exact_law (cfg_backup (dcfg pa h)) (Vp (pk_h pa h)) (VpH pa h).
+Proof. exact extra_laws_documented. Qed.
+Print Assumptions C17_extra_laws_documented.
+
+Theorem C17_extra_laws_new :
+  forall q, hidden_ok q ->
+  removeall_emptydir_law (cfg_backup (ncfg q)) (Vp q) (V0H q) /\
+  readdir_exact_law (cfg_backup (ncfg q)) (Vp q) (V0H q).
+Proof. exact extra_laws_new. Qed.
+Print Assumptions C17_extra_laws_new.
+
+(** closed: the generic layering, a whole transaction *)
+Theorem C17_former_directory_concrete :
+  forall pa pb, prefix_ok pa -> prefix_ok pb -> disjoint_prefixes pa pb ->
+  forall B0, all_small B0 ->
+  forall w0 ops1 w p fi0,
+    initial (Vp pa) (Vp pb) clean clean (acc_p pa) (acc_p pb) B0 w0 ->
+    good_run (cfg_base (gcfg pa pb)) (cfg_backup (gcfg pa pb)) (Vp pa) w0 ops1 w ->
+    snolinkpar (Vp pa w) p -> p <> s_root ->
+    w_infos w !! p = Some (Some fi0) -> fi_kind fi0 = KDir -> (forall m, Vp pa w !! p <> Some (Dir m)) ->
+    forall w1 ops2 w2,
+      b_force_backup (cfg_base (gcfg pa pb)) (cfg_backup (gcfg pa pb)) p w = (MOk tt, w1) ->
+      good_run (cfg_base (gcfg pa pb)) (cfg_backup (gcfg pa pb)) (Vp pa) w1 ops2 w2 ->
+      Vp pa w !! p = None /\
+      exists w3, b_rollback (cfg_base (gcfg pa pb)) (cfg_backup (gcfg pa pb)) w2 = (MOk tt, w3) /\
+                 (forall q, under p q -> Vp pa w3 !! q = None) /\
+                 (forall q, ~ under p q -> q <> s_root -> sonode_eqv (Vp pa w3 !! q) (Vp pa w0 !! q)) /\
+                 (forall q, q <> s_root -> Vp pb w3 !! q = None) /\ w_infos w3 = ∅.
+Proof. exact c17_dir_initial_concrete. Qed.
+Print Assumptions C17_former_directory_concrete.
+
+(** closed: the generic layering, from any state with the invariant up to the
+    type of the entry at p (so: also "directory removed, file in its place") *)
+Theorem C17_former_directory_concrete_state :
+  forall pa pb, prefix_ok pa -> prefix_ok pb -> disjoint_prefixes pa pb ->
+  forall B0, links_ok clean clean (acc_p pa) (acc_p pb) B0 -> all_small B0 -> swf B0 ->
+  forall w p fi0, InvD (Vp pa) (Vp pb) B0 p w -> snolinkpar (Vp pa w) p -> p <> s_root ->
+  w_infos w !! p = Some (Some fi0) -> fi_kind fi0 = KDir ->
+  entry_ok clean clean (acc_p pa) (acc_p pb) p (Vp pa w !! p) ->
+  forall w1 ops w2,
+    b_force_backup (cfg_base (gcfg pa pb)) (cfg_backup (gcfg pa pb)) p w = (MOk tt, w1) ->
+    good_run (cfg_base (gcfg pa pb)) (cfg_backup (gcfg pa pb)) (Vp pa) w1 ops w2 ->
+    exists w3, b_rollback (cfg_base (gcfg pa pb)) (cfg_backup (gcfg pa pb)) w2 = (MOk tt, w3) /\
+               sonode_eqv (Vp pa w3 !! p) (Vp pa w !! p) /\
+               (forall q, under p q -> q <> p -> Vp pa w3 !! q = None) /\
+               (forall q, ~ under p q -> q <> s_root -> sonode_eqv (Vp pa w3 !! q) (B0 !! q)) /\
+               (forall q, q <> s_root -> Vp pb w3 !! q = None) /\ w_infos w3 = ∅.
+Proof. exact c17_dir_concrete. Qed.
+Print Assumptions C17_former_directory_concrete_state.
+
+(** closed: the documented layering *)
+Theorem C17_former_directory_documented :
+  forall pa h, prefix_ok pa -> hidden_ok h ->
+  forall B0, links_ok clean clean (acc_h pa h) (acc_p (pk_h pa h)) B0 -> all_small B0 -> swf B0 ->
+  loc_ok (hid_h h) (anc_h h) B0 ->
+  forall w p fi0, InvD (VpH pa h) (Vp (pk_h pa h)) B0 p w -> snolinkpar (VpH pa h w) p -> p <> s_root ->
+  w_infos w !! p = Some (Some fi0) -> fi_kind fi0 = KDir ->
+  entry_ok clean clean (acc_h pa h) (acc_p (pk_h pa h)) p (VpH pa h w !! p) ->
+  forall w1 ops w2,
+    b_force_backup (cfg_base (dcfg pa h)) (cfg_backup (dcfg pa h)) p w = (MOk tt, w1) ->
+    good_run (cfg_base (dcfg pa h)) (cfg_backup (dcfg pa h)) (VpH pa h) w1 ops w2 ->
+    exists w3, b_rollback (cfg_base (dcfg pa h)) (cfg_backup (dcfg pa h)) w2 = (MOk tt, w3) /\
+               sonode_eqv (VpH pa h w3 !! p) (VpH pa h w !! p) /\
+               (forall q, under p q -> q <> p -> VpH pa h w3 !! q = None) /\
+               (forall q, ~ under p q -> q <> s_root -> sonode_eqv (VpH pa h w3 !! q) (B0 !! q)) /\
+               (forall q, q <> s_root -> Vp (pk_h pa h) w3 !! q = None) /\ w_infos w3 = ∅.
+Proof. exact c17_dir_documented. Qed.
+Print Assumptions C17_former_directory_documented.
+
+(** closed: the layering of New / NewWithFS *)
+Theorem C17_former_directory_new :
+  forall q, hidden_ok q ->
+  forall B0, links_ok tn_0 clean (acc_0 q) (acc_p q) B0 -> all_small B0 -> swf B0 ->
+  loc_ok (hid_h q) (anc_h q) B0 ->
+  forall w p fi0, InvD (V0H q) (Vp q) B0 p w -> snolinkpar (V0H q w) p -> p <> s_root ->
+  w_infos w !! p = Some (Some fi0) -> fi_kind fi0 = KDir ->
+  entry_ok tn_0 clean (acc_0 q) (acc_p q) p (V0H q w !! p) ->
+  forall w1 ops w2,
+    b_force_backup (cfg_base (ncfg q)) (cfg_backup (ncfg q)) p w = (MOk tt, w1) ->
+    good_run (cfg_base (ncfg q)) (cfg_backup (ncfg q)) (V0H q) w1 ops w2 ->
+    exists w3, b_rollback (cfg_base (ncfg q)) (cfg_backup (ncfg q)) w2 = (MOk tt, w3) /\
+               sonode_eqv (V0H q w3 !! p) (V0H q w !! p) /\
+               (forall q', under p q' -> q' <> p -> V0H q w3 !! q' = None) /\
+               (forall q', ~ under p q' -> q' <> s_root -> sonode_eqv (V0H q w3 !! q') (B0 !! q')) /\
+               (forall q', q' <> s_root -> Vp q w3 !! q' = None) /\ w_infos w3 = ∅.
+Proof. exact c17_dir_new. Qed.
+Print Assumptions C17_former_directory_new.
+
+(** ** Runs of the model ([c17_cfg]: the layering of New with the location /bk) *)
+
+(** Tree { /bk, /d/, /d/f = "hi", /d/s/, /d/s/g = "yo" }.  RemoveAll(/d) backs
+    the four entries up and removes them.  ForceBackup(/d) - /d is absent -
+    returns nil: the backup holds nothing any more, the four records are gone
+    and /d is recorded as "did not exist" (first and second conjunct: after,
+    before).  A Rollback then returns nil and leaves /d and its former
+    content ABSENT (third); without the ForceBackup it brings all four back
+    (fourth). *)
+Definition c17_d : str := [47;100].
+Definition c17_wd : world :=
+  init_file (init_dir (init_file (init_dir c17_w0 [47;100] 493 0 0 3) [47;100;47;102] 420 0 0 4 [104;105])
+                      [47;100;47;115] 493 0 0 5) [47;100;47;115;47;103] 420 0 0 6 [121;111].
+Example C17_former_directory_absent :
+  (let '(rs, w') := run_history c17_cfg [ORemoveAll c17_d; OForceBackup c17_d] c17_wd in
+   nth 1 rs MHalt = MOk ObUnit /\
+   map fst (map_to_list (w_infos w')) = [[47]; [47;100]] /\ w_infos w' !! c17_d = Some None /\
+   map fst (dump_fs w') = [[]; [[98;107]]]) /\
+  (let '(rs, w') := run_history c17_cfg [ORemoveAll c17_d] c17_wd in
+   map fst (map_to_list (w_infos w')) =
+     [[47]; [47;100]; [47;100;47;102]; [47;100;47;115;47;103]; [47;100;47;115]] /\
+   map fst (dump_fs w') =
+     [[]; [[98;107];[100];[115];[103]]; [[98;107];[100];[115]]; [[98;107];[100]]; [[98;107]];
+      [[98;107];[100];[102]]]) /\
+  (let '(rs, w') := run_history c17_cfg [ORemoveAll c17_d; OForceBackup c17_d; ORollback] c17_wd in
+   nth 2 rs MHalt = MOk ObUnit /\ map fst (dump_fs w') = [[]; [[98;107]]]) /\
+  (let '(rs, w') := run_history c17_cfg [ORemoveAll c17_d; ORollback] c17_wd in
+   nth 1 rs MHalt = MOk ObUnit /\
+   map fst (dump_fs w') = [[]; [[100];[115];[103]]; [[100];[115]]; [[100]]; [[98;107]]; [[100];[102]]]).
+Proof. vm_compute. repeat split; reflexivity. Qed.
+
+(** The same tree.  RemoveAll(/d); Create(/d) - a FILE where the directory
+    was: /d is tracked as a directory and is a file (recorded finding D13).
+    ForceBackup(/d) returns nil; the backup then holds the copy of the file
+    /d and nothing else, and only "/" and "/d" are tracked (first conjunct).
+    Rollback returns nil, /d is still that file and the former content is
+    absent (second).  Without the ForceBackup Rollback FAILS (D13) - and /d
+    is that file, the former content is absent and the backup is empty all
+    the same (third): in the state D13 the ForceBackup loses nothing that
+    was not lost already, and repairs the transaction. *)
+Example C17_former_directory_now_file :
+  (let '(rs, w') := run_history c17_cfg [ORemoveAll c17_d; OCreate c17_d [122]; OForceBackup c17_d] c17_wd in
+   nth 2 rs MHalt = MOk ObUnit /\
+   map fst (map_to_list (w_infos w')) = [[47]; [47;100]] /\
+   map fst (dump_fs w') = [[]; [[100]]; [[98;107];[100]]; [[98;107]]]) /\
+  (let '(rs, w') := run_history c17_cfg [ORemoveAll c17_d; OCreate c17_d [122]; OForceBackup c17_d; ORollback] c17_wd in
+   nth 3 rs MHalt = MOk ObUnit /\ map fst (dump_fs w') = [[]; [[100]]; [[98;107]]] /\
+   st_fs (w_st w') !! [[100]] = Some (File (mkMeta 438 0 0 (Now 11)) [122])) /\
+  (let '(rs, w') := run_history c17_cfg [ORemoveAll c17_d; OCreate c17_d [122]; ORollback] c17_wd in
+   nth 2 rs MHalt = MErr ERollback /\ map fst (dump_fs w') = [[]; [[100]]; [[98;107]]] /\
+   st_fs (w_st w') !! [[100]] = Some (File (mkMeta 438 0 0 (Now 11)) [122])).
+Proof. vm_compute. repeat split; reflexivity. Qed.
+
+(** The same tree.  Create(/d/n) records /d/n as "did not exist";
+    RemoveAll(/d); Create(/d) as a file.  ForceBackup(/d) returns nil and the
+    record of /d/n SURVIVES below the re-baselined file /d (first conjunct):
+    the Walk never meets it, it has no copy.  It does no harm: Rollback
+    returns nil (its Lstat of /d/n below the file /d fails with ENOTDIR, which
+    BackupFS counts as "does not exist") and /d stays the file (second). *)
+Definition c17_dn : str := [47;100;47;110].
+Example C17_former_directory_none_record :
+  (let '(rs, w') := run_history c17_cfg
+                      [OCreate c17_dn [120]; ORemoveAll c17_d; OCreate c17_d [122]; OForceBackup c17_d] c17_wd in
+   nth 3 rs MHalt = MOk ObUnit /\
+   map fst (map_to_list (w_infos w')) = [[47]; [47;100]; [47;100;47;110]] /\
+   w_infos w' !! c17_dn = Some None) /\
+  (let '(rs, w') := run_history c17_cfg
+                      [OCreate c17_dn [120]; ORemoveAll c17_d; OCreate c17_d [122]; OForceBackup c17_d; ORollback] c17_wd in
+   nth 4 rs MHalt = MOk ObUnit /\ map fst (dump_fs w') = [[]; [[100]]; [[98;107]]] /\ w_infos w' = ∅).
+Proof. vm_compute. repeat split; reflexivity. Qed.
